@@ -620,6 +620,13 @@ def _set_difference(v):
         return v[2], v[3]
     if v[0] == "meth" and v[2] == "difference" and len(v[3]) == 1 and not v[4]:
         return v[1], v[3][0]
+    # {x for x in a if x not in b}
+    if v[0] == "comp" and v[1] == "set" and len(v[3]) == 1:
+        tg, it, ifs = v[3][0]
+        if tg is not None and tg[0] == "bv" and v[2] == tg and len(ifs) == 1 and ifs[0][0] == "cmp" and ifs[0][1] == ("NotIn",) and ifs[0][2][0] == tg:
+            return it, ifs[0][2][1]
+    if v[0] == "call" and v[1] == ("global", "set") and len(v[2]) == 1 and not v[3] and v[2][0][0] == "comp":
+        return _set_difference(("comp", "set") + tuple(v[2][0][2:]))
     return None
 
 
@@ -1024,3 +1031,5 @@ BENIGN += [{"name": "setter-snapshot-by-unpacking", "file": NF, "old": "recorded
             "new": "recorded_reactions = [*self.reaction_list, *self._skipped_reactions]"}]
 MUTANTS += [{"name": "setter-snapshot-forgets-skipped", "file": NF, "old": "recorded_reactions = self.reaction_list + self._skipped_reactions",
              "new": "recorded_reactions = [*self.reaction_list]", "rules": ["R2"]}]
+BENIGN += [{"name": "source-by-set-comprehension", "file": NF, "old": "source = self._reactants.difference(self._products)", "new": "source = {sp for sp in self._reactants if sp not in self._products}"}]
+MUTANTS += [{"name": "source-by-set-comprehension-of-products", "file": NF, "old": "source = self._reactants.difference(self._products)", "new": "source = {sp for sp in self._products if sp not in self._products}", "rules": ["R4"]}]
